@@ -323,7 +323,7 @@ pub fn cases(tier: Tier) -> Vec<Case> {
         push(server, Where::Control, vec![0x07], true, crit.clone(), "header-cut-by-fin");
         push(server, Where::Control, frame(0x21, 3, b"x"), true, crit.clone(), "grease-cut-by-fin");
         if thorough {
-            push(server, Where::Control, frame(rf::GOAWAY, 8, &[0xc0, 0, 0, 0, 0, 0, 0, 0x04, 0x00][..9]), false, vec![FRAME_ERROR], "goaway-8-byte-varint-plus-one");
+            push(server, Where::Control, frame(rf::GOAWAY, 9, &[0xc0, 0, 0, 0, 0, 0, 0, 0x04, 0x00][..9]), false, vec![FRAME_ERROR], "goaway-8-byte-varint-plus-one");
             let mut g = padded(rf::GOAWAY, 2);
             g.extend(padded(3, 2));
             g.extend_from_slice(&[0x00, 0x00, 0x00]);
